@@ -76,6 +76,9 @@ type simIssue struct {
 	Notes       []*simNote
 	LabelEvents []*simLabelEvent
 	StateEvents []*simStateEvent
+	// AmbiguousRename: some title-change note of this issue quotes a title that itself holds the
+	// note's delimiters ("**", "{+", "+}"): the note cannot be parsed unambiguously by anyone.
+	AmbiguousRename bool
 }
 
 // Tracker is the simulated GitLab project. All stamps come from the logical clock Now, which the
@@ -195,6 +198,11 @@ func inlineDiff(old, new string) (string, string) {
 func (t *Tracker) ChangeTitle(is *simIssue, author int, title string) {
 	now := t.tick()
 	mo, mn := inlineDiff(is.Title, title)
+	for _, d := range []string{"**", "{+", "+}", "{-", "-}"} {
+		if strings.Contains(is.Title, d) || strings.Contains(title, d) {
+			is.AmbiguousRename = true
+		}
+	}
 	is.Title = title
 	t.addNote(is, author, fmt.Sprintf("changed title from **%s** to **%s**", mo, mn), true, now)
 }
